@@ -386,6 +386,35 @@ def v1_translation(prog: Program, rep: Report) -> None:
         rep.check(rule, v1.qual, "ibm variables become float instance variables with a default", ok_iv, what_bad="an ibm variable of a v1 file reaches the state without type or without default: the v2 spelling (which lists it under state) describes another simulation", what_ok="float, defaulted", loc=v1.loc())
     else:
         rep.bad(rule, v1.qual, "ibm variables become float instance variables with a default", "the variables a v1 file lists under ibm are not handed to the state", v1.loc())
+    # geographic release columns: a v1 file that lists lon / lat among the release variables declares them as
+    # float instance variables (the v2 spelling lists them under state); decided on the outcomes a variable of that
+    # name takes through every membership test on literal name lists
+    relvar = Sym(("particle_release", "variables", "*"))
+
+    def takes(o, name):
+        seen = False
+        for (ln, col, what), val in o["choices"].items():
+            if what.startswith(f"in-list:{relvar!r}:"):
+                seen = True
+                if val != (name in ast.literal_eval(what.split(":", 2)[2])):
+                    return None
+            elif what.startswith(f"eq:{relvar!r}:"):
+                seen = True
+                try:
+                    lit = ast.literal_eval(what.split(":", 2)[2])
+                except Exception:  # noqa: BLE001
+                    continue
+                if val != (name == lit):
+                    return None
+        return seen
+
+    for name in ("lon", "lat"):
+        mine = [o for o in with_vars if takes(o, name)]
+        if not any(takes(o, name) is not None for o in outs):
+            rep.add(rule, v1.qual, f"release variable '{name}' becomes a float instance variable", None, "no membership test on the release variable names was met by the evaluator", v1.loc())
+            continue
+        okg = bool(mine) and all(o["result"]["state"]["instance_variables"].get(relvar) == "float" for o in mine)
+        rep.check(rule, v1.qual, f"release variable '{name}' becomes a float instance variable", okg, what_bad=f"a v1 file with '{name}' among the release variables is translated without declaring it ({len(mine)} path(s) for that name): when X and Y are given as well the release hands '{name}' to a state that does not know it, while the v2 spelling of the same run declares it", what_ok="declared as float", loc=v1.loc())
     ibm_secs = [o["result"].get("ibm") for o in outs]
     generic = Sym(("ibm", "*"))
     has_mod = [x for x in ibm_secs if isinstance(x, dict) and "module" in x]
